@@ -80,7 +80,10 @@ def max_count(ex, st, sk, key, key_len):
         args = [pool[n] for n in names]
     except KeyError as e:
         raise Unsupported(f"_max_count has an unknown parameter {e}")
-    return run1(ex, disp, st, args)
+    post, rv = run1(ex, disp, st, args)
+    # what Python receives: the kernel's declared return type decides the sign (uint32 zero-extends, a signed type
+    # sign-extends); callers reason about this 64-bit two's-complement integer
+    return post, cast(rv, types.int64, ex)
 
 
 def ident(keycells, L, mkl):
